@@ -2318,3 +2318,82 @@ func lineCountSearchWalk(p *Program, fn *ssa.Function, text ssa.Value, l *natLoo
 	}
 	return true, fmt.Sprintf("search-walk form: %d (byte, look-ahead) cases, one count per line ending, CRLF consumed as one", n), true
 }
+
+// ---------------------------------------------------------------------------------------------
+// FILL-LAST: NUL padding is measured before it is filled in.
+
+func ruleFillLast(c *Ctx) {
+	c.Rule("FILL-LAST", "unpaddedNullLength recovers the original length of a prefix from the zero bytes padNulls left in it; fillNulls overwrites those zero bytes with U+FFFD. In every function that calls fillNulls, no path leads from that call to a measurement of the buffer (a call of unpaddedNullLength or nullCount, directly or inside a module function called afterwards): a measurement taken after the fill counts no padding and advances the stream offset by the padded length, two bytes too far per NUL.")
+	p := c.P
+	fill := p.Func("fillNulls")
+	if !c.NeedFunc("FILL-LAST", fill, "fillNulls") {
+		return
+	}
+	measures := map[*ssa.Function]bool{}
+	for _, n := range []string{"unpaddedNullLength", "nullCount"} {
+		if f := p.Func(n); f != nil {
+			measures[f] = true
+		}
+	}
+	if len(measures) == 0 {
+		c.Undecided("FILL-LAST", "anchors", token.NoPos, "no padding-measuring function found")
+		return
+	}
+	// module functions that (transitively, statically) measure
+	measuring := map[*ssa.Function]bool{}
+	for f := range measures {
+		measuring[f] = true
+	}
+	for changed := true; changed; {
+		changed = false
+		for _, f := range p.Funcs {
+			if measuring[f] {
+				continue
+			}
+			eachInstr(f, func(in ssa.Instruction) {
+				if ci, ok := in.(ssa.CallInstruction); ok {
+					if g := ci.Common().StaticCallee(); g != nil && measuring[g] && !measuring[f] {
+						measuring[f] = true
+						changed = true
+					}
+				}
+			})
+		}
+	}
+	n := 0
+	for _, fn := range p.Funcs {
+		eachInstr(fn, func(in ssa.Instruction) {
+			call, ok := in.(*ssa.Call)
+			if !ok || call.Call.StaticCallee() != fill {
+				return
+			}
+			n++
+			key := fmt.Sprintf("%s:fillNulls#%d", shortFuncName(fn), n)
+			// instructions reachable after the call
+			var later []string
+			seen := map[*ssa.BasicBlock]bool{}
+			var scan func(b *ssa.BasicBlock, start int)
+			scan = func(b *ssa.BasicBlock, start int) {
+				for _, x := range b.Instrs[start:] {
+					if ci, ok := x.(ssa.CallInstruction); ok {
+						if g := ci.Common().StaticCallee(); g != nil && measuring[g] && g != fill {
+							later = append(later, fmt.Sprintf("%s at %s", g.Name(), p.Pos(x.Pos())))
+						}
+					}
+				}
+				for _, s := range b.Succs {
+					if !seen[s] {
+						seen[s] = true
+						scan(s, 0)
+					}
+				}
+			}
+			scan(call.Block(), instrIndex(call)+1)
+			sort.Strings(later)
+			c.Check(len(later) == 0, "FILL-LAST", key, call.Pos(), "the padding is measured after it has been filled in: "+strings.Join(later, ", "))
+		})
+	}
+	if n < 1 {
+		c.Undecided("FILL-LAST", "instance-count", fill.Pos(), "fillNulls is never called")
+	}
+}
